@@ -312,7 +312,26 @@ def read(pkg_text, top_text):
                         rules.append([num(d["idx"]), s, e, e - s])
                 if "NumAddrRules" not in params_:
                     raise SvError(f"{it['name']}: NumAddrRules missing")
-                r["map"] = [m[1], num(lps[m[1] + "NumRules"][0]["value"]), num(params_["NumAddrRules"]), rules]
+                # width of the idx field of the rule struct the table is declared with
+                if tbl["type"] not in tstructs:
+                    raise SvError(f"{it['name']}: rule type {tbl['type']} of {m[1]} is not declared")
+                sf = tstructs[tbl["type"]][0]["fields"]
+                if [fn for _, _, fn in sf] != ["idx", "start_addr", "end_addr"]:
+                    raise SvError(f"{tbl['type']}: unexpected fields")
+
+                def fw(ty, d):
+                    if ty == "id_t":
+                        if n["id_bits"] is None:
+                            raise SvError("id_t field but id_t is not a vector")
+                        return n["id_bits"]
+                    if ty == "int unsigned":
+                        return 32
+                    if ty == "logic":
+                        return width_of(d, "rule field") or 1
+                    raise SvError(f"{tbl['type']}: unexpected field type {ty}")
+                r["map_field_bits"] = [fw(ty, d) for ty, d, _ in sf]
+                r["map"] = [m[1], num(lps[m[1] + "NumRules"][0]["value"]), num(params_["NumAddrRules"]),
+                            r["map_field_bits"][0], rules]
                 r["map_decl"] = (tbl["type"], [estr(h) + ":" + estr(l) for h, l in tbl["dims"]], estr(params_.get("addr_rule_t", ("id", "?"))))
             for f, port, kind in (("req_in", "floo_req_i", "in"), ("rsp_out", "floo_rsp_o", "out"),
                                   ("req_out", "floo_req_o", "out"), ("rsp_in", "floo_rsp_i", "in"),
